@@ -77,6 +77,50 @@ class Timeout(Exception):
     pass
 
 
+CYCLIC_TTL = {
+    "path: inverse of itself": "sh:property [ sh:path _:p ; sh:minCount 1 ] . _:p sh:inversePath _:p",
+    "path: inverse ring of two": "sh:property [ sh:path _:p ; sh:minCount 1 ] . _:p sh:inversePath _:q . _:q sh:inversePath _:p",
+    "path: inverse ring of three": "sh:property [ sh:path _:p ; sh:minCount 1 ] . _:p sh:inversePath _:q . _:q sh:inversePath _:r . _:r sh:inversePath _:p",
+    "path: zeroOrMore of itself": "sh:property [ sh:path _:p ; sh:minCount 1 ] . _:p sh:zeroOrMorePath _:p",
+    "path: oneOrMore / zeroOrOne ring": "sh:property [ sh:path _:p ; sh:minCount 1 ] . _:p sh:oneOrMorePath _:q . _:q sh:zeroOrOnePath _:p",
+    "path: alternative containing itself": "sh:property [ sh:path _:p ; sh:minCount 1 ] . _:p sh:alternativePath ( ex:p _:p )",
+    "path: sequence containing itself": "sh:property [ sh:path _:p ; sh:minCount 1 ] . _:p rdf:first ex:p ; rdf:rest ( _:p )",
+    "path: inverse inside a sequence cycle": "sh:property [ sh:path _:p ; sh:minCount 1 ] . _:p rdf:first [ sh:inversePath _:p ] ; rdf:rest ( ex:p )",
+    "path: legal nested inverses": "sh:property [ sh:path [ sh:inversePath [ sh:inversePath [ sh:inversePath ex:p ] ] ] ; sh:minCount 1 ]",
+    "expression: filterShape over itself": "sh:expression _:e . _:e sh:filterShape [ sh:nodeKind sh:IRI ] ; sh:nodes _:e",
+    "expression: union containing itself": "sh:expression _:e . _:e sh:union ( sh:this _:e )",
+    "expression: intersection ring": "sh:expression _:e . _:e sh:intersection ( _:f ) . _:f sh:intersection ( _:e )",
+    "expression: path expression over a cyclic path": "sh:expression [ sh:path _:p ] . _:p sh:inversePath _:p",
+    "rule object: filterShape over itself": "sh:rule [ a sh:TripleRule ; sh:subject sh:this ; sh:predicate ex:q ; sh:object _:e ] . _:e sh:filterShape [ sh:nodeKind sh:IRI ] ; sh:nodes _:e",
+}
+
+
+def cyclic_structures(run):
+    """path structures and node expressions that refer to themselves: validate() must end with a verdict or a documented
+    failure (never RecursionError, never a hang), in every mode that walks them"""
+    import rdflib
+    import pyshacl
+    pfx = "@prefix sh: <http://www.w3.org/ns/shacl#> . @prefix ex: <http://ex.org/> . @prefix rdf: <http://www.w3.org/1999/02/22-rdf-syntax-ns#> .\n"
+    data = rdflib.Graph().parse(data=pfx + "ex:a a ex:T ; ex:p ex:b . ex:b ex:p ex:a , ex:c . ex:c ex:p ex:c .", format="turtle")
+    stats, fails = {"cyclic_structure_cases": 0, "cyclic_structure_outcomes": {}}, []
+    for name, body in CYCLIC_TTL.items():
+        ttl = pfx + "ex:CS a sh:NodeShape ; sh:targetClass ex:T ; " + body + " ."
+        try:
+            sg = rdflib.Graph().parse(data=ttl, format="turtle")
+        except Exception as e:
+            fails.append({"what": "harness: cyclic structure case does not parse: %s" % e, "case": name})
+            continue
+        for opts in ({}, {"advanced": True}, {"advanced": True, "sparql_mode": True} if name.startswith("path") else {"advanced": True, "abort_on_first": True}):
+            o = run(data, sg, **opts)
+            stats["cyclic_structure_cases"] += 1
+            k = o[1] if o[0] == "err" else "verdict"
+            stats["cyclic_structure_outcomes"][k] = stats["cyclic_structure_outcomes"].get(k, 0) + 1
+            if o[0] == "err" and o[1].startswith("RAW:"):
+                fails.append({"what": "a self-referring %s ends in %s instead of a verdict or a documented failure" % (name.split(":")[0], o[1][4:]),
+                              "case": name, "options": opts, "shapes_ttl": ttl, "detail": o[2][:300]})
+    return stats, fails, []
+
+
 def main(tier, seed, replay=None):
     rng = F.rng_for(seed, PROP)
     cases = gen_cases(rng, tier)
@@ -101,8 +145,9 @@ def main(tier, seed, replay=None):
     try:
         return EC.standard_main(
             PROP, ["Props/C19.v"], tier, seed, cases,
-            rule="case = (a) chain of n shapes through mixed node/property/not/or/and/xone/qualified links with max_validation_depth m in 1..30 and n around m and up to 2m; (a') the same chains with m in 2..6 over wide data (2-4 values per node and predicate); (b) random shapes graphs with arbitrary cyclic references (self-loops, mutual recursion) over cyclic data with m in 1..6; every run under a 30 s wall-clock limit; outcome (report or 'too deep' failure) compared with the model, which contains the depth test and recursion_triggers",
+            rule="case = (a) chain of n shapes through mixed node/property/not/or/and/xone/qualified links with max_validation_depth m in 1..30 and n around m and up to 2m; (a') the same chains with m in 2..6 over wide data (2-4 values per node and predicate); (b) random shapes graphs with arbitrary cyclic references (self-loops, mutual recursion) over cyclic data with m in 1..6; every run under a 30 s wall-clock limit; (c) self-referring path structures (inverse / star / alternative / sequence rings) and node expressions (filterShape, union, intersection over themselves) in default, advanced and sparql mode: a verdict or a documented failure, never RecursionError; outcome (report or 'too deep' failure) compared with the model, which contains the depth test and recursion_triggers",
             what="outcome differs from the model of depth limiting / recursion back-out (Props.C19)",
+            extra_checks=lambda: cyclic_structures(timed),
         )
     finally:
         S.run_validate = orig
